@@ -15,6 +15,10 @@ type c20Loader struct {
 	broken  map[string]bool // names whose reader fails after a leading part of the content
 	outside int // fetches that happened while the engine saw no mutex held
 	nlock   int // own Lock calls (subtracted from the engine's lock-event count)
+	// native concurrent demonstration only: the FIRST fetch of name `gated` announces itself, waits to be released and then fails
+	gated            string
+	gateUsed         bool
+	entered, release chan struct{}
 	slow    bool // native concurrent demonstration only: every fetch takes a moment, so that overlapping loads overlap for sure
 }
 
@@ -22,6 +26,23 @@ func (l *c20Loader) Abs(base, name string) string { return name }
 func (l *c20Loader) Get(path string) (ioReader, error) {
 	if l.slow {
 		time.Sleep(2 * time.Millisecond)
+	}
+	if l.gated != "" && path == l.gated {
+		l.mu.Lock()
+		first := !l.gateUsed
+		l.gateUsed = true
+		if first {
+			l.fetches[path]++
+		}
+		l.mu.Unlock()
+		if first {
+			close(l.entered)
+			select {
+			case <-l.release:
+			case <-time.After(3 * time.Second):
+			}
+			return nil, errHarness
+		}
 	}
 	if h := verifLocksHeld(); h == 0 {
 		l.outside++ // fetched while no mutex was held (engine only; natively verifLocksHeld() is -1)
@@ -211,6 +232,35 @@ func HarnessC20Locking() {
 			verifAssert(res[g] == res[0], "concurrent FromCache calls returned different templates for one name")
 		}
 		verifAssert(l.fetches["b"] == 1, "concurrent FromCache calls compiled one name more than once")
+		// a fault at a particular point: a slow load of "c" that is going to FAIL is in flight; meanwhile another
+		// caller cleans "c" and loads it successfully (on a tree that serialises everything it simply waits);
+		// then the first load reports its failure. The newer entry must survive: the next FromCache("c")
+		// returns the template the successful caller got, without another fetch.
+		l.slow = false
+		l.files["c"] = "C"
+		l.gated, l.entered, l.release = "c", make(chan struct{}), make(chan struct{})
+		g1, g2 := make(chan struct{}), make(chan struct{})
+		var t2 *Template
+		go func() {
+			set.FromCache("c")
+			close(g1)
+		}()
+		<-l.entered
+		go func() {
+			set.CleanCache("c")
+			t2, _ = set.FromCache("c")
+			close(g2)
+		}()
+		select {
+		case <-g2:
+		case <-time.After(150 * time.Millisecond):
+		}
+		close(l.release)
+		<-g1
+		<-g2
+		t3, e3 := set.FromCache("c")
+		verifAssert(e3 == nil && t2 != nil && t3 == t2, "a failing load overtaken by CleanCache and a successful reload took the newer cache entry with it")
+		verifAssert(l.fetches["c"] == 2, "a failing load overtaken by a successful reload caused one more compile of the name")
 		return
 	}
 	verifEpoch()
